@@ -802,7 +802,7 @@ def innermost_lian_frame(tb):
 
 
 def leaf_diff(a, b, path="", out=None):
-    """Names of the leaf fields where two canonical forms differ (list positions dropped) — recomputable."""
+    """Names of the leaf fields where two canonical forms differ (positions and numeric keys dropped)."""
     if out is None:
         out = set()
     if isinstance(a, dict) and isinstance(b, dict):
@@ -828,10 +828,14 @@ def leaf_diff(a, b, path="", out=None):
 
 
 def _fieldname(path, k):
-    # numeric dictionary keys (ids) are data, not field names
-    if k.lstrip("-").isdigit():
+    if k.lstrip("-").isdigit():      # numeric dictionary keys (ids) are data, not field names
         return path
     return k
+
+
+def distance(got, want):
+    d = leaf_diff(got, want)
+    return sum(100 if x.endswith("#len") or x == "item" else 1 for x in d)
 
 
 def is_empty_canon(c):
@@ -846,6 +850,15 @@ def is_empty_canon(c):
     return False
 
 
+def stage_of(src, read):
+    """The shortest operation sequence that reaches the place the wrong value came from."""
+    if read == "freshget":
+        return "save-export+index-restore-get"
+    if src in ("item-cache", "active-bundle"):
+        return "save-get"
+    return "save-export-get"
+
+
 class HistoryRun:
     """Interprets one history on the real loader with the dict model as oracle."""
 
@@ -857,40 +870,19 @@ class HistoryRun:
         self.model = {}          # i -> variant | UNSPEC    (content a read must return)
         self.flushed = {}        # i -> True once an export happened after its last save
         self.snap = {}           # i -> variant | UNSPEC    (what the files promise since the last export_indexing)
-        self.trace = {}          # i -> list of event tokens since the loader was created (for the op triple)
-        self.saved_versions = {}  # i -> list of variants saved so far in this loader lifetime
-        self.failures = []       # dicts
+        self.versions = {}       # i -> every variant saved so far, oldest first
+        self.got_since_save = {}  # i -> was the item read since its last save (this loader)
+        self.failures = []
         self.reads = 0
         self.sources = {}
         self.output = []
         self.nbundles = 0
+        self.auto_exports = 0
 
-    # -- events ---------------------------------------------------------------------------------
-    def _ev(self, i, tok):
-        self.trace.setdefault(i, []).append(tok)
-
-    def _ev_all(self, tok):
-        for i in IDS:
-            self._ev(i, tok)
-
-    def triple(self, i, read):
-        """save / save-resave / save-get-resave, then the set of loader-wide events since the last save, then the read."""
-        t = self.trace.get(i, [])
-        last = max((n for n, x in enumerate(t) if x == "save"), default=None)
-        if last is None:
-            head = "restored" if "restore" in t else "never-saved"
-            between = []
-        else:
-            prev = max((n for n, x in enumerate(t[:last]) if x == "save"), default=None)
-            if prev is None:
-                head = "save"
-            elif "get" in t[prev:last]:
-                head = "save-get-resave"
-            else:
-                head = "save-resave"
-            between = t[last + 1:]
-        mids = [x for x in ("export", "index", "restore") if x in between]
-        return "-".join([head] + (["+".join(mids)] if mids else []) + [read])
+    def fail(self, cls, famname, triple, detail, i, step, **kw):
+        d = {"class": cls, "signature": "%s:%s:%s" % (famname, triple, cls), "detail": detail, "id": i, "step": step}
+        d.update(kw)
+        self.failures.append(d)
 
     # -- operations -----------------------------------------------------------------------------
     def op_save(self, i, variant):
@@ -900,24 +892,23 @@ class HistoryRun:
         self.output.append(cap.text())
         self.model[i] = variant
         self.flushed[i] = False
+        self.versions.setdefault(i, []).append(variant)
         gl = getattr(self.L, fam.attr)
         if gl.item_id_to_bundle_id.get(fam.key(i), None) not in (-1, None):
             # MAX_ROWS overflow: save() exported the active bundle itself
+            self.auto_exports += 1
             for j in self.model:
                 self.flushed[j] = True
-            self._ev_all("export")
-        self._ev(i, "save")
 
-    def read(self, L, i, where):
-        """Returns (canonical form | ('raised', type, where, msg), source class)."""
+    def read(self, L, i):
+        """Returns (canonical form | ('raised', type, innermost lian function, message), source class)."""
         fam = self.fam
         src = source_class(L, fam, fam.key(i))
         self.sources[src] = self.sources.get(src, 0) + 1
         self.reads += 1
         with Capture() as cap:
             try:
-                obj = fam.get(L, fam.key(i))
-                got = fam.canon(obj)
+                got = fam.canon(fam.get(L, fam.key(i)))
             except BaseException as e:
                 if isinstance(e, KeyboardInterrupt):
                     raise
@@ -931,13 +922,12 @@ class HistoryRun:
         want = self.fam.expected(i, want_variant)
         if got == want:
             return
-        self.failures.append(classify(self, i, want_variant, want, got, src, read, step))
+        self.classify(i, want_variant, want, got, src, read, step)
 
     def op_get(self, i, step):
-        got, src = self.read(self.L, i, "live")
+        got, src = self.read(self.L, i)
         if i in self.model:
             self.judge(i, self.model[i], got, src, "get", step)
-        self._ev(i, "get")
 
     def op_export(self):
         with Capture() as cap:
@@ -946,7 +936,6 @@ class HistoryRun:
         self.output.append(cap.text())
         for j in self.model:
             self.flushed[j] = True
-        self._ev_all("export")
 
     def op_index(self):
         with Capture() as cap:
@@ -954,23 +943,19 @@ class HistoryRun:
                 getattr(self.L, attr).export_indexing()
         self.output.append(cap.text())
         self.snap = {j: (self.model[j] if self.flushed.get(j) else UNSPEC) for j in self.model}
-        self._ev_all("index")
 
     def op_restore(self, step, adopt=True):
         with Capture() as cap:
             L2 = new_loader(self.ws)
             L2.restore()
         self.output.append(cap.text())
-        old = self.L
-        self._ev_all("restore")
         for i in sorted(self.snap):
-            got, src = self.read(L2, i, "fresh")
+            got, src = self.read(L2, i)
             self.judge(i, self.snap[i], got, src, "freshget", step)
         if adopt:
             self.L = L2
             self.model = dict(self.snap)
             self.flushed = {j: True for j in self.model}
-            self.trace = {j: ["restore"] for j in IDS}
         return L2
 
     def closing(self, step):
@@ -981,91 +966,81 @@ class HistoryRun:
         self.op_export()
         self.op_index()
         spec = {i: v for i, v in self.model.items() if v != UNSPEC}
-        with Capture() as cap:
+        with Capture():
             problems, stats = check_files(self.L, self.fam, spec)
         self.nbundles = stats["bundles"]
+        famname = self.fam.name.split("[")[0]
         for cls, detail, i in problems:
-            self.failures.append({"class": cls, "signature": "%s:%s:%s" % (sigfam(self.fam, cls), self.triple(i, "fileread"), cls),
-                                  "detail": detail, "id": i, "step": step})
+            fn = famname
+            if cls == "index-names-no-bundle" and spec.get(i) == "E":
+                cls, fn = "empty-item-never-exported", "*"
+            self.fail(cls, fn, "save-export+index-fileread", detail, i, step)
         for i in sorted(self.model):
             self.op_get(i, step)
         self.op_restore(step, adopt=False)
 
-
-GENERIC = ("stale-item-cache", "empty-item-reads-absent", "empty-item-never-exported")
-
-
-def sigfam(fam, cls):
-    return fam.name.split("[")[0]
-
-
-def classify(run, i, want_variant, want, got, src, read, step):
-    """Mechanism class of one wrong read, computed from the case alone."""
-    fam = run.fam
-    triple = run.triple(i, read)
-    famname = fam.name.split("[")[0]
-    detail = None
-    if isinstance(got, tuple) and got and got[0] == "raised":
-        cls = "read-raised[%s@%s]" % (got[1], got[2])
-        detail = "read of item %d (%s) raised %s: %s" % (i, src, got[1], got[3])
-    elif got == ABSENT and is_empty_canon(want):
-        cls = "empty-item-never-exported" if read == "freshget" else "empty-item-reads-absent"
-        famname = "*"
-        triple = "save-export+index-" + read if read == "freshget" else "save-" + read
-    elif got == ABSENT:
-        cls = "item-lost[%s]" % src
-    else:
-        older = [v for v in run.saved_history(i)[:-1] if fam.expected(i, v) == got]
-        if older and src == "item-cache" and read == "get":
-            cls, famname, triple = "stale-item-cache", "*", "save-get-resave-get"
-        elif older:
-            cls = "stale-content[%s]" % src
-        elif is_empty_canon(got):
-            cls = "item-emptied[%s]" % src
-        else:
-            other = [j for j in IDS if j != i for v in ("A", "B") if fam.expected(j, v) == got]
-            if other:
-                cls = "other-items-content[%s]" % src
+    # -- classification -------------------------------------------------------------------------
+    def classify(self, i, want_variant, want, got, src, read, step):
+        """Mechanism class of one wrong read, computed from the case alone (history, source of the read, values)."""
+        fam = self.fam
+        famname = fam.name.split("[")[0]
+        stage = stage_of(src, read)
+        wj = json.dumps(want, default=str)[:300]
+        if isinstance(got, tuple) and got and got[0] == "raised":
+            if is_empty_canon(want) and got[1] == "SystemExit":
+                return self.fail("empty-item-read-quits", "*", "save-resave-export-get",
+                                 "read of empty item %d (%s) raised SystemExit: %s" % (i, src, self.output[-1].strip()[:200]), i, step, source=src)
+            return self.fail("read-raised[%s@%s]" % (got[1], got[2]), famname, stage,
+                             "read of item %d (%s) raised %s: %s %s" % (i, src, got[1], got[3], self.output[-1].strip()[:200]), i, step, source=src)
+        gj = json.dumps(got, default=str)[:300]
+        detail = "item %d read from %s is %s, last saved %s" % (i, src, gj, wj)
+        if got == ABSENT and is_empty_canon(want):
+            if read == "freshget":
+                return self.fail("empty-item-never-exported", "*", stage, detail, i, step, source=src)
+            return self.fail("empty-item-reads-absent", "*", stage, detail, i, step, source=src)
+        if got == ABSENT:
+            return self.fail("item-lost[%s]" % src, famname, stage, detail, i, step, source=src)
+        # which saved version is the read closest to?
+        vers = self.versions.get(i, [])
+        best, best_d = want_variant, distance(got, want)
+        for v in reversed(vers[:-1]):
+            if v == want_variant:
+                continue
+            d = distance(got, fam.expected(i, v))
+            if d < best_d:
+                best, best_d = v, d
+        if best != want_variant:
+            if src == "item-cache" and read == "get":
+                self.fail("stale-item-cache", "*", "save-get-resave-get", detail, i, step, source=src)
             else:
-                leaves = sorted(leaf_diff(got, want))
-                cls = "fields-differ[%s]" % ",".join(leaves[:6])
-                if read == "get" and src in ("item-cache", "active-bundle"):
-                    triple = "save-get"           # flatten/unflatten asymmetry, independent of the rest of the history
-                elif read == "freshget":
-                    triple = "save-export+index-freshget"
-    if detail is None:
-        detail = "item %d read from %s is %s, last saved %s" % (i, src, json.dumps(got, default=str)[:300], json.dumps(want, default=str)[:300])
-    return {"class": cls, "signature": "%s:%s:%s" % (famname, triple, cls), "detail": detail, "id": i, "step": step, "source": src}
+                self.fail("stale-content[%s]" % src, famname, "save-resave-" + stage[5:], detail, i, step, source=src)
+            if best_d == 0:
+                return
+            want = fam.expected(i, best)        # residue: judged against the version actually returned
+        if is_empty_canon(got) and not is_empty_canon(want):
+            return self.fail("item-emptied", famname, stage, detail, i, step, source=src)
+        for j in IDS:
+            if j != i and any(fam.expected(j, v) == got for v in ("A", "B")):
+                return self.fail("other-items-content[%s]" % src, famname, stage, detail, i, step, source=src)
+        leaves = sorted(leaf_diff(got, want))
+        self.fail("fields-differ[%s]" % ",".join(leaves[:6]), famname, stage, detail, i, step, source=src)
 
 
-def _saved_history(self, i):
-    return self.saved_versions.get(i, [])
-
-
-HistoryRun.saved_history = _saved_history
-_orig_op_save = HistoryRun.op_save
-
-
-def _op_save(self, i, variant):
-    self.saved_versions.setdefault(i, []).append(variant)
-    return _orig_op_save(self, i, variant)
-
-
-HistoryRun.op_save = _op_save
-
-
-def run_history(fam_name, cfg, history, ws_root, keep=False):
+def run_history(fam_name, cfg, history, ws_root, keep=False, before_op=None):
     """Run one history (list of ops) for one family under cfg in a fresh workspace. Returns a plain dict."""
     fam = families()[fam_name]
     ws = make_workspace(os.path.join(ws_root, "ws"))
     configure(cfg)
     run = None
     crashed = None
+    famname = fam.name.split("[")[0]
     try:
         run = HistoryRun(fam, ws, cfg)
         for step, op in enumerate(history):
             kind = op[0]
             try:
+                if before_op:
+                    before_op(run, step, op)
                 if kind == "save":
                     run.op_save(op[1], op[2])
                 elif kind == "get":
@@ -1082,7 +1057,7 @@ def run_history(fam_name, cfg, history, ws_root, keep=False):
                 if isinstance(e, KeyboardInterrupt):
                     raise
                 crashed = {"class": "op-raised", "signature": "%s:%s:op-raised[%s@%s]" % (
-                    fam.name.split("[")[0], kind, type(e).__name__, innermost_lian_frame(e.__traceback__)),
+                    famname, kind, type(e).__name__, innermost_lian_frame(e.__traceback__)),
                     "detail": "%s raised %s: %s" % (op, type(e).__name__, str(e)[:200]), "id": op[1] if len(op) > 1 else 0, "step": step}
                 break
         if crashed is None:
@@ -1092,7 +1067,7 @@ def run_history(fam_name, cfg, history, ws_root, keep=False):
                 if isinstance(e, KeyboardInterrupt):
                     raise
                 crashed = {"class": "op-raised", "signature": "%s:closing:op-raised[%s@%s]" % (
-                    fam.name.split("[")[0], type(e).__name__, innermost_lian_frame(e.__traceback__)),
+                    famname, type(e).__name__, innermost_lian_frame(e.__traceback__)),
                     "detail": "closing battery raised %s: %s" % (type(e).__name__, str(e)[:200]), "id": 0, "step": len(history)}
     finally:
         if not keep:
@@ -1101,4 +1076,618 @@ def run_history(fam_name, cfg, history, ws_root, keep=False):
     if crashed:
         fails.append(crashed)
     return {"failures": fails, "reads": run.reads if run else 0, "sources": run.sources if run else {},
-            "bundles": run.nbundles if run else 0, "output": "".join(run.output)[-2000:] if run else ""}
+            "bundles": run.nbundles if run else 0, "auto_exports": run.auto_exports if run else 0,
+            "output": "".join(run.output)[-2000:] if run else ""}
+
+
+# ---------------------------------------------------------------------------------------------------
+# write monitor: every DataFrame.to_feather call, every exception it raises, every exception DataModel.save swallows;
+# optional fault injection at the n-th call
+
+TOKEN = "C15-injected-write-fault"
+
+
+class _Tee:
+    def __init__(self, under):
+        self.under, self.parts = under, []
+
+    def write(self, s):
+        self.parts.append(s)
+        return self.under.write(s)
+
+    def flush(self):
+        return self.under.flush()
+
+    def __getattr__(self, name):
+        return getattr(self.under, name)
+
+
+class WriteMonitor:
+    def __init__(self):
+        self.calls = 0
+        self.paths = []            # path of every to_feather call, in order
+        self.failed = []           # dicts: path, type, message, injected
+        self.swallowed = []        # failed writes after which DataModel.save returned normally: + printed text
+        self.fail_at = None        # 1-based index of the call that must raise
+
+    def failed_paths(self):
+        return {f["path"] for f in self.failed}
+
+
+_WM = None
+
+
+def install_write_monitor():
+    """Idempotent per process. Returns the monitor."""
+    global _WM
+    if _WM is not None:
+        return _WM
+    import pandas as pd
+    import lian.util.data_model as dmod
+    mon = WriteMonitor()
+    orig_tf = pd.DataFrame.to_feather
+
+    def to_feather(df, path, *a, **k):
+        mon.calls += 1
+        mon.paths.append(str(path))
+        if mon.fail_at is not None and mon.calls == mon.fail_at:
+            e = OSError(28, "No space left on device (%s)" % TOKEN)
+            mon.failed.append({"path": str(path), "type": "OSError", "message": str(e), "injected": True})
+            raise e
+        try:
+            return orig_tf(df, path, *a, **k)
+        except Exception as e:
+            mon.failed.append({"path": str(path), "type": type(e).__name__, "message": str(e), "injected": False})
+            raise
+    pd.DataFrame.to_feather = to_feather
+    orig_save = dmod.DataModel.save
+
+    def save(self, path):
+        n = len(mon.failed)
+        tee_o, tee_e = _Tee(sys.stdout), _Tee(sys.stderr)
+        old = sys.stdout, sys.stderr
+        sys.stdout, sys.stderr = tee_o, tee_e
+        try:
+            r = orig_save(self, path)
+        finally:
+            sys.stdout, sys.stderr = old
+        if len(mon.failed) > n:        # the write raised and save() came back normally: it swallowed the exception
+            f = dict(mon.failed[-1])
+            f["printed"] = ("".join(tee_o.parts) + "".join(tee_e.parts))[-600:]
+            f["reported"] = was_reported(f, f["printed"], raised=False)
+            mon.swallowed.append(f)
+        return r
+    dmod.DataModel.save = save
+    _WM = mon
+    return mon
+
+
+def was_reported(failure, output, raised):
+    """A failed write counts as reported when an exception reached the caller or a diagnostic carrying the failure's
+    own message (or at least its first 25 characters) was written to stdout/stderr."""
+    if raised:
+        return True
+    msg = failure["message"].strip()
+    if not msg:
+        return False
+    probe = msg if len(msg) <= 25 else msg[:25]
+    return probe in output or TOKEN in output and failure.get("injected")
+
+
+def run_fault_history(fam_name, cfg, history, ws_root, mode, n):
+    """History with one write fault. mode 'raise': the n-th to_feather call raises OSError(ENOSPC);
+    mode 'block': the path of the n-th write of the clean run is occupied by a directory (the native writer fails).
+    Returns dict(outcome=..., ...). outcome in: no-fault-reached | reported | not-reported."""
+    fam = families()[fam_name]
+    mon = install_write_monitor()
+    famname = fam.name.split("[")[0]
+    state = {"calls0": mon.calls, "failed0": len(mon.failed)}
+    ws = make_workspace(os.path.join(ws_root, "ws"))
+    configure(cfg)
+    result = {"outcome": "no-fault-reached", "failures": [], "lost_later": False, "writes": 0}
+    try:
+        run = HistoryRun(fam, ws, cfg)
+        if mode == "raise":
+            mon.fail_at = mon.calls + n
+        else:
+            # learn the n-th path from the deterministic layout: clean paths are passed in by the caller through n
+            os.makedirs(n, exist_ok=True)
+        fault = None
+        ops = list(history) + [["export"], ["index"]]
+        for step, op in enumerate(ops):
+            before = len(mon.failed)
+            raised = None
+            with Capture() as cap:
+                try:
+                    kind = op[0]
+                    if kind == "save":
+                        run.op_save(op[1], op[2])
+                    elif kind == "get":
+                        if fault is None:
+                            run.op_get(op[1], step)
+                        else:
+                            run.read(run.L, op[1])
+                    elif kind == "export":
+                        run.op_export()
+                    elif kind == "index":
+                        run.op_index()
+                    elif kind == "restore":
+                        if fault is not None:
+                            break
+                        run.op_restore(step)
+                except BaseException as e:
+                    if isinstance(e, KeyboardInterrupt):
+                        raise
+                    raised = e
+            text = cap.text() + "".join(run.output[-3:])
+            if len(mon.failed) > before and fault is None:
+                fault = dict(mon.failed[before])
+                fault["op"] = op[0]
+                fault["reported"] = was_reported(fault, text, raised is not None)
+                fault["raised"] = type(raised).__name__ if raised is not None else None
+                fault["printed"] = text[-300:]
+                mon.fail_at = None
+                if raised is not None:
+                    break
+            elif raised is not None and fault is None:
+                result["failures"].append({"signature": "%s:%s:op-raised[%s@%s]" % (famname, op[0], type(raised).__name__, innermost_lian_frame(raised.__traceback__)),
+                                           "detail": "%s raised %s: %s" % (op, type(raised).__name__, str(raised)[:200])})
+                break
+        result["writes"] = mon.calls - state["calls0"]
+        result["failures"] += [{"signature": f["signature"], "detail": f["detail"]} for f in run.failures]
+        if fault is not None:
+            # what a later reader sees (observation only: once the failure was reported nothing more is demanded)
+            lost = []
+            with Capture():
+                for i in sorted(run.model):
+                    if run.model[i] == UNSPEC:
+                        continue
+                    for L in (run.L,):
+                        try:
+                            got = fam.canon(fam.get(L, fam.key(i)))
+                        except BaseException as e:
+                            if isinstance(e, KeyboardInterrupt):
+                                raise
+                            got = "raised"
+                        if got != "raised" and got != fam.expected(i, run.model[i]):
+                            lost.append(i)
+                try:
+                    L2 = new_loader(ws)
+                    L2.restore()
+                    for i in sorted(run.model):
+                        if run.model[i] == UNSPEC:
+                            continue
+                        try:
+                            got = fam.canon(fam.get(L2, fam.key(i)))
+                        except BaseException as e:
+                            if isinstance(e, KeyboardInterrupt):
+                                raise
+                            got = "raised"
+                        if got != "raised" and got != fam.expected(i, run.model[i]):
+                            lost.append(i)
+                except BaseException as e:
+                    if isinstance(e, KeyboardInterrupt):
+                        raise
+            result["lost_later"] = bool(lost)
+            result["fault"] = fault
+            result["outcome"] = "reported" if fault["reported"] else "not-reported"
+            if not fault["reported"]:
+                result["failures"].append({
+                    "signature": "%s:%s:write-failure-not-reported[%s]" % (famname, fault["op"], fault["type"]),
+                    "detail": "the write of %s failed with %s (%s) during %s; no exception reached the caller and nothing naming it was printed%s"
+                              % (os.path.basename(fault["path"]), fault["type"], fault["message"][:120], fault["op"],
+                                 "; a later read silently returns other content for item(s) %s" % sorted(set(lost)) if lost else "")})
+    finally:
+        mon.fail_at = None
+        shutil.rmtree(ws, ignore_errors=True)
+    return result
+
+
+# ---------------------------------------------------------------------------------------------------
+# post-conditions that stay on while real analyses run (icontract.ensure with named conditions and explicit error=)
+
+class ContractBroken(Exception):
+    def __init__(self, name, detail, result):
+        Exception.__init__(self, "%s: %s" % (name, detail))
+        self.name, self.detail, self.result = name, detail, result
+
+
+class ContractStats:
+    def __init__(self):
+        self.evaluated = {}
+        self.failures = []
+
+    def hit(self, name):
+        self.evaluated[name] = self.evaluated.get(name, 0) + 1
+
+
+_CS = None
+
+
+def _lru_walk(cache):
+    """ids in list order head -> tail, or None when the links are inconsistent."""
+    out = []
+    node = cache.head.next
+    prev = cache.head
+    guard = 0
+    while node is not cache.tail:
+        if node is None or node.prev is not prev:
+            return None
+        out.append(node._id)
+        prev, node = node, node.next
+        guard += 1
+        if guard > len(cache.cache) + 2:
+            return None
+    if cache.tail.prev is not prev:
+        return None
+    return out
+
+
+def install_contracts():
+    """Attach post-conditions to LRUCache.get/put/remove and GeneralLoader.get_item_by_id / get_raw_item_by_id."""
+    global _CS
+    if _CS is not None:
+        return _CS
+    import collections
+    import icontract
+    from lian.util import util as lutil
+    import lian.util.loader as lmod
+    stats = ContractStats()
+    shadows = {}      # id(cache) -> OrderedDict key -> last put value, least recently used first
+    C = lutil.LRUCache
+
+    def shadow(cache):
+        sh = shadows.get(id(cache))
+        if sh is None or sh[0] is not cache:
+            sh = (cache, collections.OrderedDict((k, n._data) for k, n in ((k, cache.cache[k]) for k in (_lru_walk(cache) or []))))
+            shadows[id(cache)] = sh
+        return sh[1]
+
+    # ---- condition functions (named; each counts its evaluations) ----
+    def size_within_capacity(self):
+        stats.hit("LRUCache: size <= capacity")
+        return len(self.cache) <= self.capacity
+
+    def list_matches_dict(self):
+        stats.hit("LRUCache: linked list == dict")
+        order = _lru_walk(self)
+        return order is not None and len(order) == len(self.cache) and set(order) == set(self.cache) and \
+            all(self.cache[k]._id == k for k in self.cache)
+
+    def keys_follow_lru_rule(self):
+        stats.hit("LRUCache: resident keys and order follow the LRU rule")
+        return _lru_walk(self) == list(shadow(self).keys())
+
+    def hit_returns_last_put(self, _id, result):
+        stats.hit("LRUCache.get: a hit returns the last put, a miss None")
+        sh = shadow(self)
+        if _id in sh:
+            return result is sh[_id]
+        return result is None
+
+    def err(name):
+        def make(self, result=None, **kw):
+            return ContractBroken(name, "capacity=%r resident=%r" % (getattr(self, "capacity", None), list(getattr(self, "cache", {}))[:6]), result)
+        return make
+
+    o_put, o_get, o_remove, o_clean = C.put, C.get, C.remove, C.clean
+
+    def put_shadowed(self, _id, _data):
+        sh = shadow(self)
+        r = o_put(self, _id, _data)
+        sh.pop(_id, None)
+        sh[_id] = _data
+        while len(sh) > self.capacity:
+            sh.popitem(last=False)
+        return r
+
+    def get_shadowed(self, _id):
+        sh = shadow(self)
+        r = o_get(self, _id)
+        if _id in sh:
+            sh.move_to_end(_id)
+        return r
+
+    def remove_shadowed(self, _id):
+        sh = shadow(self)
+        r = o_remove(self, _id)
+        sh.pop(_id, None)
+        return r
+
+    def clean_shadowed(self):
+        r = o_clean(self)
+        shadows.pop(id(self), None)
+        return r
+
+    put_c = icontract.ensure(size_within_capacity, error=err("LRUCache.put: size <= capacity"))(
+        icontract.ensure(list_matches_dict, error=err("LRUCache.put: linked list == dict"))(
+            icontract.ensure(keys_follow_lru_rule, error=err("LRUCache.put: LRU rule"))(put_shadowed)))
+    get_c = icontract.ensure(hit_returns_last_put, error=err("LRUCache.get: hit returns last put"))(
+        icontract.ensure(list_matches_dict, error=err("LRUCache.get: linked list == dict"))(
+            icontract.ensure(keys_follow_lru_rule, error=err("LRUCache.get: LRU rule"))(get_shadowed)))
+    remove_c = icontract.ensure(list_matches_dict, error=err("LRUCache.remove: linked list == dict"))(
+        icontract.ensure(keys_follow_lru_rule, error=err("LRUCache.remove: LRU rule"))(remove_shadowed))
+
+    def guard(fn):
+        def guarded(self, *a, **k):
+            try:
+                return fn(self, *a, **k)
+            except ContractBroken as e:
+                if len(stats.failures) < 50:
+                    stats.failures.append((e.name, e.detail))
+                return e.result
+        return guarded
+
+    C.put, C.get, C.remove, C.clean = guard(put_c), guard(get_c), guard(remove_c), clean_shadowed
+
+    # ---- GeneralLoader: an indexed item is readable; repeated reads agree; caches stay within capacity ----
+    G = lmod.GeneralLoader
+    o_raw = G.get_raw_item_by_id
+
+    def indexed_item_is_found(self, _id, result):
+        stats.hit("GeneralLoader.get_raw_item_by_id: an indexed item is found")
+        return (_id not in self.item_id_to_bundle_id) or result is not None
+
+    def caches_within_capacity(self):
+        stats.hit("GeneralLoader: item/bundle cache sizes <= capacity")
+        return len(self.item_cache.cache) <= self.item_cache.capacity and len(self.bundle_cache.cache) <= self.bundle_cache.capacity
+
+    def gerr(name):
+        def make(self, _id=None, result=None):
+            return ContractBroken(name, "%s item %r -> bundle %r" % (type(self).__name__, _id, self.item_id_to_bundle_id.get(_id, None)), result)
+        return make
+
+    raw_c = icontract.ensure(indexed_item_is_found, error=gerr("GeneralLoader.get_raw_item_by_id: indexed item found"))(
+        icontract.ensure(caches_within_capacity, error=gerr("GeneralLoader: cache sizes <= capacity"))(o_raw))
+    G.get_raw_item_by_id = guard(raw_c)
+    _CS = stats
+    return stats
+
+
+# ---------------------------------------------------------------------------------------------------
+# real analyses: what every GeneralLoader.save received, versus what the live loader and a fresh restored loader return
+
+def _cfg_weight(w):
+    return 0 if w is None else norm(w)      # "no label" is stored as 0 by CFGLoader/SymbolGraphLoader by design
+
+
+def _rows_stamped(idcol):
+    def canon(key, content):
+        out = []
+        for item in content:
+            if isinstance(item, dict):
+                d = dict(item)
+            elif dataclasses.is_dataclass(item):
+                d = {f.name: getattr(item, f.name) for f in dataclasses.fields(item)}
+            elif hasattr(item, "symbol_name") and hasattr(item, "scope_id"):
+                d = {"scope_id": item.scope_id, "symbol_type": item.symbol_type, "symbol_id": item.symbol_id, "symbol_name": item.symbol_name}
+            else:
+                d = dict(item.to_dict())
+            d[idcol] = key
+            out.append(row_dict(d))
+        return out
+    return canon
+
+
+def _plain(fn):
+    return lambda key, content: fn(content)
+
+
+CANON_BY_CLASS = {
+    # class name -> (canonical form of what save() received, canonical form of what get_item_by_id() returns)
+    "UnitGIRLoader": (_rows_stamped("unit_id"), rows_of),
+    "ScopeHierarchyLoader": (_rows_stamped("unit_id"), rows_of),
+    "UnitIDToExportSymbolsLoader": (_rows_stamped("unit_id"), rows_of),
+    "ClassIDToMethodInfoLoader": (_rows_stamped("unit_id"), rows_of),
+    "ClassIDToMembersLoader": (_plain(dict_canon), dict_canon),
+    "SymbolNameToScopeIDsLoader": (_plain(dict_canon), dict_canon),
+    "ScopeIDToSymbolInfoLoader": (_plain(dict_canon), dict_canon),
+    "ScopeIDToAvailableScopeIDsLoader": (_plain(dict_canon), dict_canon),
+    "SymbolNameToDeclIDsLoader": (_plain(dict_canon), dict_canon),
+    "CFGLoader": (_plain(lambda g: graph_canon(g, weight=_cfg_weight)), lambda g: graph_canon(g, weight=_cfg_weight)),
+    "BitVectorManagerLoader": (_plain(canon_bit_vector), canon_bit_vector),
+    "StmtStatusLoader": (_plain(dict_canon), dict_canon),
+    "SymbolStateSpaceLoader": (_plain(canon_space), canon_space),
+    "CalleeParameterMapping": (_plain(lambda o: norm(o)), lambda o: ABSENT if o is None else norm(o)),
+    "MethodSymbolToDefinedLoader": (_plain(dict_canon), dict_canon),
+    "MethodStateToDefinedLoader": (_plain(dict_canon), dict_canon),
+    "MethodSymbolToUsedLoader": (_plain(dict_canon), dict_canon),
+    "SymbolGraphLoader": (_plain(lambda g: graph_canon(g, weight=_cfg_weight)), lambda g: graph_canon(g, weight=_cfg_weight)),
+    "StateFlowGraphLoader": (_plain(graph_canon), graph_canon),
+}
+
+
+class SaveRecorder:
+    def __init__(self):
+        self.saved = {}        # id(loader object) -> key -> canonical form of the content of the last save
+        self.count = 0
+        self.uncanon = 0
+        self.keep = []         # keep loader objects alive so that id() stays unique
+
+
+_SR = None
+
+
+def install_save_recorder():
+    global _SR
+    if _SR is not None:
+        return _SR
+    import lian.util.loader as lmod
+    rec = SaveRecorder()
+    G = lmod.GeneralLoader
+    o_save = G.save
+
+    def save(self, _id, item_content):
+        fns = CANON_BY_CLASS.get(type(self).__name__)
+        if fns is not None:
+            try:
+                c = fns[0](_id, item_content)
+                if id(self) not in rec.saved:
+                    rec.saved[id(self)] = {}
+                    rec.keep.append(self)
+                rec.saved[id(self)][_id] = c
+                rec.count += 1
+            except Exception:
+                rec.uncanon += 1
+        return o_save(self, _id, item_content)
+    G.save = save
+    _SR = rec
+    return rec
+
+
+def classify_plain(famname, want, got, stage, src=""):
+    """(class, detail) for a wrong read when no history is known (real runs)."""
+    wj = json.dumps(want, default=str)[:240]
+    if isinstance(got, tuple) and got and got[0] == "raised":
+        if is_empty_canon(want) and got[1] == "SystemExit":
+            return "*", "empty-item-read-quits", "read of an empty item raised SystemExit"
+        return famname, "read-raised[%s@%s]" % (got[1], got[2]), "read raised %s: %s" % (got[1], got[3])
+    gj = json.dumps(got, default=str)[:240]
+    detail = "read returns %s, saved was %s" % (gj, wj)
+    if got == ABSENT and is_empty_canon(want):
+        return "*", "empty-item-never-exported" if stage != "save-get" else "empty-item-reads-absent", detail
+    if got == ABSENT:
+        return famname, "item-lost", detail
+    if is_empty_canon(got) and not is_empty_canon(want):
+        return famname, "item-emptied", detail
+    leaves = sorted(leaf_diff(got, want))
+    return famname, "fields-differ[%s]" % ",".join(leaves[:6]), detail
+
+
+def _safe_read(gl, key, canon):
+    with Capture() as cap:
+        try:
+            return canon(gl.get_item_by_id(key))
+        except BaseException as e:
+            if isinstance(e, KeyboardInterrupt):
+                raise
+            return ("raised", type(e).__name__, innermost_lian_frame(e.__traceback__), (str(e) + " " + cap.text())[:200])
+
+
+MAP_ATTRS_SKIP = {"path", "schema", "options", "EdgeNodePair", "import_graph_nodes_save_path", "import_deps_save_path"}
+
+
+def map_loader_view(obj):
+    """Canonical view of the data attributes of a non-bundle loader (dicts, sets, lists, graphs, tables, scalars)."""
+    import networkx as nx
+    out = {}
+    for k, v in vars(obj).items():
+        if k in MAP_ATTRS_SKIP or k.endswith("_loader") or callable(v) and not hasattr(v, "_data"):
+            continue
+        try:
+            if isinstance(v, nx.Graph):
+                out[k] = graph_canon(v, attrs=True)
+            elif hasattr(v, "graph") and isinstance(getattr(v, "graph"), nx.Graph):
+                out[k] = graph_canon(v.graph, attrs=True)
+            elif hasattr(v, "_data"):
+                out[k] = rows_of(v)
+            elif isinstance(v, dict):
+                out[k] = {str(norm(a)): norm(b) for a, b in v.items()}
+            elif isinstance(v, (set, frozenset)):
+                out[k] = norm(v)
+            elif isinstance(v, list) and v and hasattr(v[0], "to_dict") and not dataclasses.is_dataclass(v[0]) and not hasattr(v[0], "_schema"):
+                out[k] = [row_dict(x.to_dict()) for x in v]
+            else:
+                out[k] = norm(v)
+        except Exception as e:
+            out[k] = "<uncanonical %s>" % type(e).__name__
+    return out
+
+
+def compare_live_and_restored(app, rec, wm, max_fail=80):
+    """After a real analysis: every item of every GeneralLoader member of the live loader, and of a fresh
+    Loader(options).restore(), against the content its last save received. Returns plain data."""
+    import lian.util.loader as lmod
+    live = app.loader
+    with Capture() as cap:
+        fresh = lmod.Loader(app.options)
+        fresh.restore()
+    restore_output = cap.text()
+    out = {"items_live": 0, "items_fresh": 0, "items_files": 0, "loaders": {}, "failures": [], "maps_compared": 0,
+           "restore_output": restore_output[-600:], "bundles": 0}
+    failed = wm.failed_paths() if wm else set()
+
+    def add(sig, detail, extra=None):
+        if len(out["failures"]) < max_fail:
+            out["failures"].append((sig, detail, extra or {}))
+
+    for attr, gl in sorted(vars(live).items()):
+        if not isinstance(gl, lmod.GeneralLoader):
+            continue
+        cname = type(gl).__name__
+        fns = CANON_BY_CLASS.get(cname)
+        if fns is None:
+            continue
+        gf = getattr(fresh, attr)
+        saved = rec.saved.get(id(gl), {}) if rec else {}
+        keys = list(gl.item_id_to_bundle_id.keys())
+        info = out["loaders"].setdefault(attr, {"class": cname, "items": 0, "bundles": gl.bundle_count})
+        out["bundles"] += gl.bundle_count
+        # independent look at the files: the index file must name an existing, readable bundle for every item
+        index = None
+        if keys:
+            try:
+                index = read_index_file(gl.loader_indexing_path)
+            except Exception as e:
+                add("%s:real-run:index-file-unreadable[%s]" % (cname, type(e).__name__), "%s: %s" % (gl.loader_indexing_path, str(e)[:160]))
+        readable = {}
+        for key in keys:
+            info["items"] += 1
+            want = saved.get(key)
+            bpath = gl.get_bundle_path(gl.item_id_to_bundle_id.get(key))
+            wfail = bpath in failed
+            if index is not None:
+                out["items_files"] += 1
+                ik = key.to_tuple() if hasattr(key, "to_tuple") else key
+                b = index.get(ik)
+                if b is None or b < 0:
+                    if want is not None and is_empty_canon(want):
+                        add("*:save-export+index-fileread:empty-item-never-exported", "%s item %r: index file maps it to %r" % (attr, ik, b))
+                    else:
+                        add("%s:real-run:index-names-no-bundle" % cname, "%s item %r: index file maps it to %r" % (attr, ik, b))
+                else:
+                    p = gl.get_bundle_path(b)
+                    if p not in readable:
+                        try:
+                            import pandas as pd
+                            readable[p] = len(pd.read_feather(p))
+                        except Exception as e:
+                            readable[p] = e
+                    if isinstance(readable[p], Exception):
+                        if p in failed:
+                            f = [x for x in wm.failed if x["path"] == p][-1]
+                            add("%s:save-export:feather-write-failed[%s]" % (cname, f["type"]),
+                                "%s: the write of %s failed (%s) and the item exists in no file" % (attr, os.path.basename(p), f["message"][:160]))
+                        else:
+                            add("%s:real-run:bundle-file-unreadable[%s]" % (cname, type(readable[p]).__name__), "%s %s" % (p, str(readable[p])[:160]))
+            got_live = _safe_read(gl, key, fns[1])
+            out["items_live"] += 1
+            got_fresh = _safe_read(gf, key, fns[1])
+            out["items_fresh"] += 1
+            if want is None:
+                want = got_live if not (isinstance(got_live, tuple) and got_live[:1] == ("raised",)) else None
+                if want is None:
+                    continue
+            for got, stage, label in ((got_live, "save-get", "live loader"), (got_fresh, "save-export+index-restore-get", "fresh restored loader")):
+                if got == want:
+                    continue
+                if wfail and stage != "save-get":
+                    f = [x for x in wm.failed if x["path"] == bpath][-1]
+                    add("%s:save-export:feather-write-failed[%s]" % (cname, f["type"]),
+                        "%s item %r: the write of %s failed (%s); the %s cannot return it" % (attr, key, os.path.basename(bpath), f["message"][:120], label))
+                    continue
+                fam, cls, detail = classify_plain(cname, want, got, stage)
+                add("%s:%s:%s" % (fam, stage, cls), "%s item %r, %s: %s" % (attr, key, label, detail))
+    # non-bundle loaders: the live object's data against the restored object's data
+    for attr, obj in sorted(vars(live).items()):
+        if isinstance(obj, lmod.GeneralLoader) or not attr.startswith("_") or not hasattr(obj, "export"):
+            continue
+        if not hasattr(obj, "restore"):
+            continue
+        a, b = map_loader_view(obj), map_loader_view(getattr(fresh, attr))
+        out["maps_compared"] += 1
+        if a != b:
+            leaves = sorted(k for k in set(a) | set(b) if a.get(k) != b.get(k))
+            detail = "; ".join("%s: live %s restored %s" % (k, json.dumps(a.get(k), default=str)[:120], json.dumps(b.get(k), default=str)[:120]) for k in leaves[:3])
+            add("%s:save-export-restore-get:restored-differs[%s]" % (type(obj).__name__, ",".join(leaves[:5])), "%s: %s" % (attr, detail), {"attr": attr})
+    return out
